@@ -12,10 +12,12 @@ ddir=$(grep -m1 '^+++ b/' $M/patch.diff | sed 's#^+++ b/##; s#/[^/]*$##')
 hint=$(head -5 $M/demo_test.go | grep -o '[a-z][a-zA-Z0-9]*/[a-zA-Z0-9/]*' | grep -v '^http' | head -1)
 [ -n "$hint" ] && [ -d "$WT/$hint" ] && ddir=$hint
 cp $M/demo_test.go $WT/$ddir/zz_seed_demo_test.go
-( cd $WT/$ddir && go test -vet=off -count=1 -run . . > /tmp/seed_$ID.base 2>&1 ); base=$?
+# run only the demonstration's own tests (net/oneway has two tests that fail offline)
+DEMORUN="^($(grep -o "^func Test[A-Za-z0-9_]*" $M/demo_test.go | sed "s/func //" | paste -sd"|"))\$"
+( cd $WT/$ddir && go test -vet=off -count=1 -run "$DEMORUN" . > /tmp/seed_$ID.base 2>&1 ); base=$?
 git -C $WT apply $M/patch.diff || { echo "patch does not apply"; git -C /repo worktree remove --force $WT; exit 2; }
 ( cd $WT && go build ./... ) > /tmp/seed_$ID.build 2>&1; build=$?
-( cd $WT/$ddir && go test -vet=off -count=1 -run . . > /tmp/seed_$ID.mut 2>&1 ); mut=$?
+( cd $WT/$ddir && go test -vet=off -count=1 -run "$DEMORUN" . > /tmp/seed_$ID.mut 2>&1 ); mut=$?
 rm $WT/$ddir/zz_seed_demo_test.go
 ( cd $WT && go test -vet=off -count=1 ./... 2>&1 | grep -E "^--- FAIL" | grep -v "TestMultiConnect\|TestSingleConnect" > /tmp/seed_$ID.suite ); 
 suite=$(wc -l < /tmp/seed_$ID.suite)
